@@ -350,7 +350,7 @@ func (j *jitter) pause() {
 	j.mu.Unlock()
 	switch {
 	case k < 40:
-	case k < 85:
+	case k < 96:
 		for i := 0; i <= n; i++ {
 			runtime.Gosched()
 		}
@@ -602,18 +602,17 @@ func clip(s string, n int) string {
 	return s
 }
 
+// oracleBudget bounds the client calls of a whole resolution used in a
+// scenario: only roots that the sequential client resolves within it are used.
+const oracleBudget = 400
+
 // concurrentWorkload generates registries and scenarios and judges them.
 // scenarios is the number of scenarios per G; every scenario is run reps times
 // (same scripts, fresh client): equal scripts with different recorded call
-// orders are what "distinct interleavings" counts.
-func concurrentWorkload(rng *rand.Rand, scenarios, reps int, st *concStats) {
-	e, err := newEnv(rand.New(rand.NewSource(rng.Int63())))
-	if err != nil {
-		st.inconclusive("concurrent workload: cannot set up the in-process service: " + err.Error())
-		return
-	}
-	defer e.close()
-	jit := &jitter{rng: rand.New(rand.NewSource(rng.Int63()))}
+// orders are what "distinct interleavings" counts. Scenarios of different
+// registries run side by side on separate services (workers).
+func concurrentWorkload(seed *rand.Rand, scenarios, reps int, st *concStats) {
+	jit := &jitter{rng: rand.New(rand.NewSource(seed.Int63()))}
 	if setYield != nil {
 		var sites sync.Map
 		setYield(func(site string) {
@@ -626,46 +625,65 @@ func concurrentWorkload(rng *rand.Rand, scenarios, reps int, st *concStats) {
 		defer setYield(nil)
 		st.count("hook:h2-present", 1)
 	}
-	for _, g := range []int{2, 8, 16} {
-		for s := 0; s < scenarios; {
-			reg := Generate(rng, 3)
-			orderSeed := rng.Int63()
-			e.svc.jitter.Store(false)
-			e.serve(reg, orderSeed)
-			budget := Encode(reg).StepBudget()
-			orc, err := newOracle(resolve.NewAPIClient(e.cli), reg, budget)
+	const workers = 4
+	var wg sync.WaitGroup
+	for w := 0; w < workers; w++ {
+		rng := rand.New(rand.NewSource(seed.Int63()))
+		wg.Add(1)
+		go func(w int) {
+			defer wg.Done()
+			e, err := newEnv(rand.New(rand.NewSource(rng.Int63())))
 			if err != nil {
-				st.inconclusive(err.Error())
+				st.inconclusive("concurrent workload: cannot set up the in-process service: " + err.Error())
 				return
 			}
-			bi := newBundleInfo(reg)
-			resolvable := func(root [2]string) bool {
-				o := orc.resolution(root)
-				return !o.exhausted && o.panicked == "" && o.calls <= 400
-			}
-			// A few scenarios per registry.
-			for k := 0; k < 4 && s < scenarios; k++ {
-				cc := genScripts(rng, reg, g, resolvable)
-				if cc == nil {
-					break
+			defer e.close()
+			for _, g := range []int{2, 8, 16} {
+				quota := scenarios / workers
+				if w < scenarios%workers {
+					quota++
 				}
-				s++
-				cs := Case{Kind: "conc", Registry: reg, OrderSeed: orderSeed, Conc: cc}
-				st.count(fmt.Sprintf("conc:G=%d:scenarios", g), 1)
-				orders := map[uint64]bool{}
-				for rep := 0; rep < reps; rep++ {
-					e.svc.jitter.Store(true)
-					rec, res := runScenario(e, cc, budget, jit)
+				for s := 0; s < quota; {
+					reg := Generate(rng, 3)
+					orderSeed := rng.Int63() | 1
 					e.svc.jitter.Store(false)
-					orders[judgeScenario(st, cs, rec, res, orc, bi)] = true
-				}
-				if len(orders) > 1 {
-					st.count(fmt.Sprintf("conc:G=%d:scenarios-whose-reruns-interleaved-differently", g), 1)
+					e.serve(reg, orderSeed)
+					orc, err := newOracle(resolve.NewAPIClient(e.cli), reg, oracleBudget)
+					if err != nil {
+						st.inconclusive(err.Error())
+						return
+					}
+					bi := newBundleInfo(reg)
+					resolvable := func(root [2]string) bool {
+						o := orc.resolution(root)
+						return !o.exhausted && o.panicked == ""
+					}
+					// A few scenarios per registry.
+					for k := 0; k < 4 && s < quota; k++ {
+						cc := genScripts(rng, reg, g, resolvable)
+						if cc == nil {
+							break
+						}
+						s++
+						cs := Case{Kind: "conc", Registry: reg, OrderSeed: orderSeed, Conc: cc}
+						st.count(fmt.Sprintf("conc:G=%d:scenarios", g), 1)
+						orders := map[uint64]bool{}
+						for rep := 0; rep < reps; rep++ {
+							e.svc.jitter.Store(true)
+							rec, res := runScenario(e, cc, 4*oracleBudget, jit)
+							e.svc.jitter.Store(false)
+							orders[judgeScenario(st, cs, rec, res, orc, bi)] = true
+						}
+						if len(orders) > 1 {
+							st.count(fmt.Sprintf("conc:G=%d:scenarios-whose-reruns-interleaved-differently", g), 1)
+						}
+					}
 				}
 			}
-		}
+			st.count("service:calls", e.svc.calls.Load())
+		}(w)
 	}
-	st.count("service:calls", e.svc.calls.Load())
+	wg.Wait()
 }
 
 // replayConc re-runs one recorded scenario many times (its verdict depends on
@@ -683,8 +701,8 @@ func replayConc(cs Case, reps int, st *concStats) {
 		defer setYield(nil)
 	}
 	e.serve(cs.Registry, cs.OrderSeed)
-	budget := Encode(cs.Registry).StepBudget()
-	orc, err := newOracle(resolve.NewAPIClient(e.cli), cs.Registry, budget)
+	budget := int64(4 * oracleBudget)
+	orc, err := newOracle(resolve.NewAPIClient(e.cli), cs.Registry, oracleBudget)
 	if err != nil {
 		st.inconclusive(err.Error())
 		return
